@@ -233,6 +233,38 @@ def gsc_registry():
         return Obj('CorrArr', {'appended': (args[0], args[1])})
     R.lib_models['numpy.pad'] = m_pad
     R.lib_models['numpy.append'] = m_append
+
+    # the EMPTY array the constructor starts from (whatever spelling): only its shape and size matter here
+    def _empty(shape):
+        size = 1
+        for n in shape:
+            size *= n
+        return Obj('CorrArr', {'shape': tuple(shape), 'size': size})
+
+    @model
+    def m_array(ip, args, kw):
+        x, shape = args[0], []
+        while isinstance(x, (list, tuple)):
+            shape.append(len(x))
+            x = x[0] if x else None
+        if not shape or shape[-1] != 0:
+            raise Unsupported('numpy.array of something else than an empty nested list')
+        return _empty(shape)
+
+    @model
+    def m_zeros(ip, args, kw):
+        sh = args[0] if isinstance(args[0], (tuple, list)) else (args[0],)
+        if not all(isinstance(n, int) for n in sh):
+            raise Unsupported('numpy.zeros/empty with a symbolic shape')
+        return _empty(sh)
+    R.lib_models['numpy.array'] = m_array
+    for nm in ('zeros', 'empty', 'ndarray'):
+        R.lib_models['numpy.' + nm] = m_zeros
+
+    @model
+    def m_none(ip, args, kw):
+        return None
+    R.models['PTm.get_initial_tensor'] = m_none
     return R
 
 
@@ -247,11 +279,16 @@ def scen_gsc(first):
         sysm, rho = Obj('SysM', {}), Vc('initial_state')
         n_old = Int('rows_so_far')
         ip.assume(n_old >= 0)
-        corr = Obj('CorrArr', {'shape': (n_old, Int('cols_so_far')), 'size': (0 if first else Int('size_so_far'))})
-        if not first:
+        if first:
+            # the state the REAL constructor leaves behind (nothing generated yet)
+            bath.fields['correlations'] = Obj('CorrM', {'temperature': Real('temperature')})
+            self_ = mkobj_init(ip, repo, 'bath_dynamics.TwoTimeBathCorrelations', [sysm, bath, pt], {'initial_state': rho})
+        else:
+            corr = Obj('CorrArr', {'shape': (n_old, Int('cols_so_far')), 'size': Int('size_so_far')})
             ip.assume(corr.fields['size'] > 0)
-        self_ = mkobj(repo, 'bath_dynamics.TwoTimeBathCorrelations', _system=sysm, _bath=bath, _process_tensor=pt, _initial_state=rho,
-                      _system_correlations=corr)
+            ip.assume(n_old >= 1)
+            self_ = mkobj(repo, 'bath_dynamics.TwoTimeBathCorrelations', _system=sysm, _bath=bath, _process_tensor=pt, _initial_state=rho,
+                          _system_correlations=corr)
         T = Real('final_time')
         return {'args': [self_, T], 'kwargs': {'progress_type': 'silent'}, 'self': self_, 'U': U, 'D': D, 'sys': sysm, 'pt': pt, 'rho': rho, 'n_old': n_old,
                 'dt': dt, 'T': T, 'first': first, 'inputs': {'first call': first}}
@@ -263,13 +300,24 @@ def post_gsc(ip, ctx, out):
         return
     from pyvc.tnnorm import TArr, equal, einsum_spec
     calls = ip.ghost.get('cc_calls', [])
-    n_new = uf('int_of_round', to_real(ctx['T']) / ctx['dt'], sort=z3.IntSort())
+    n_new = round_half_even(to_real(ctx['T']) / ctx['dt'])          # int(np.round(final_time/dt)): the step of the latest time
+    # which steps have to be computed: everything up to step n_new that is not there yet (a fresh object has NOTHING)
+    have = z3.IntVal(0) if ctx['first'] else ctx['n_old']
     if not calls:
-        return ip.prove('path-accounted', z3.BoolVal(True))      # nothing new to compute
+        return ip.prove('bathcorr/computes-what-is-missing', n_new <= have, {'steps requested': 'round(final_time/dt)', 'computations': 0,
+                                                                              'fresh object': ctx['first']})
     ip.prove('bathcorr/one-computation', z3.BoolVal(len(calls) == 1))
     a, kw = calls[0]
     names = ['system', 'process_tensor', 'operator_a', 'operator_b', 'times_a', 'times_b']
     A = {n: (kw[n] if n in kw else (a[i] if i < len(a) else None)) for i, n in enumerate(names)}
+
+    def is_slice(v, lo, hi):
+        if not isinstance(v, SliceVal) or v.step not in (None, 1):
+            return z3.BoolVal(False)
+        start = z3.IntVal(0) if v.start is None else to_int(v.start)
+        return z3.And(start == lo, to_int(v.stop) == hi) if v.stop is not None else z3.BoolVal(False)
+    ip.prove('bathcorr/computes-what-is-missing', z3.And(n_new > have, is_slice(A['times_a'], 0, n_new), is_slice(A['times_b'], have, n_new)),
+             {'times_a': repr(A['times_a']), 'times_b': repr(A['times_b']), 'required': 'rows slice(0, n), columns slice(steps already there, n)'})
     # U D U^+ :  U[a,x] D[x,y] conj(U)[b,y]
     from pyvc.tnnorm import tdot
     want = tdot(tdot(ctx['U'], ctx['D'], matmul=True), ctx['U'].pv_getattr(ip, 'conjugate').fn(ip, [], {}).pv_getattr(ip, 'T'), matmul=True)
@@ -456,6 +504,15 @@ class WrapperTarget:
                     ok = None if val is None else is_zero(val - want, {})[0]
                     note('bathcorr/occupation/assembly', ok, {'configuration': label, 'returned': str(val)[:300], 'required': str(want)[:300]})
                     want_axis = 0
+                    # the time axis returned alongside: len(pt) + 1 grid times k dt (one per returned value), whatever dt is in floating point
+                    tl = out[0] if isinstance(out, tuple) and len(out) == 2 else None
+                    if isinstance(tl, EArr) and tl.rank == 1 and len(tl.pieces) == 1:
+                        okt = bool(sp.simplify(tl.rows[0]) == 0 and sp.simplify(tl.rows[1] - (n_ + 1)) == 0 and is_zero(tl.single - earr.I_ * dt, {})[0])
+                    elif isinstance(tl, SymV) and tl.e.has(sp.Function('ARANGE')):
+                        okt = False      # np.arange(start, stop, step) with float arguments: the NUMBER of elements depends on rounding
+                    else:
+                        okt = None
+                    note('bathcorr/occupation/time-axis', okt, {'configuration': label, 'returned': repr(tl)[:200], 'required': 'arange(len(pt) + 1) * dt'})
                 if len(sums) != 1 or sums[0][1] != want_axis:
                     note('bathcorr/%s/integrand' % self.which, False, {'configuration': label, 'sums taken': len(sums)})
                     continue
